@@ -33,5 +33,6 @@ func VerifRewriteOnly(srcDir, dstDir string, opts ...loader.Option) {
 	r.rewriteAllFiles(func(filename string, f *loader.File) {
 		filename = strings.ReplaceAll(filename, srcDir, dstDir)
 		f.WriteWithComment(filename, comment)
+		r.patchTextComments(filename)
 	})
 }
